@@ -36,10 +36,14 @@ type c16Step struct {
 type c16Case struct {
 	ShortTimeout bool      `json:"short_timeout"`
 	Steps        []c16Step `json:"steps"`
+	// ProbeConn: the probes that prove a drain (and the probe steps) travel over an established record-marking
+	// connection, the way real clients' requests arrive, instead of a direct HandleCall. A request that arrives
+	// mid-drain must be answered (retry later) while the drain lasts, not parked until the update returns.
+	ProbeConn bool `json:"probe_conn,omitempty"`
 }
 
 func genC16(t *rapid.T) c16Case {
-	c := c16Case{ShortTimeout: rapid.IntRange(0, 4).Draw(t, "short") == 0}
+	c := c16Case{ShortTimeout: rapid.IntRange(0, 4).Draw(t, "short") == 0, ProbeConn: rapid.Bool().Draw(t, "probeconn")}
 	n := rapid.IntRange(3, 14).Draw(t, "n")
 	for i := 0; i < n; i++ {
 		st := c16Step{Kind: pick(t, "kind", "req", "req", "req", "update", "update", "open", "open", "probe", "fresh", "conn")}
@@ -220,8 +224,41 @@ func runC16(tb stat.TB, c c16Case) {
 			}
 		}
 	}
+	var probePipe *drv.PipeConn
+	defer func() {
+		if probePipe != nil {
+			probePipe.Close()
+		}
+	}()
+	probeUnanswered := 0
+	probeCall := func() (*nfsx.Reply, error) {
+		if !c.ProbeConn {
+			return s.e.Call(drv.Root(), nfsx.ProgNFS, 3, nfsx.ProcGetattr, nfsx.ArgsFh(root))
+		}
+		if probePipe == nil {
+			probePipe = s.e.Pipe("127.0.0.1", 700)
+		}
+		xid := s.e.NextXid()
+		err := probePipe.Send(nfsx.Call(xid, nfsx.ProgNFS, 3, nfsx.ProcGetattr, drv.Root().Cred, nfsx.AuthNone(), nfsx.ArgsFh(root)))
+		var rec []byte
+		if err == nil {
+			rec, err = probePipe.Recv(4 * time.Second)
+		}
+		if err != nil {
+			// no answer: a late one would desynchronise the next probe, so the connection is replaced
+			probeUnanswered++
+			probePipe.Close()
+			probePipe = nil
+			return nil, drv.ErrTimeout
+		}
+		rp, perr := nfsx.ParseReply(rec)
+		if perr != nil || rp.Xid != xid {
+			return nil, &drv.MalformedError{Proc: nfsx.ProcGetattr, Err: errors.New("probe reply undecodable or wrong xid"), Wire: rec}
+		}
+		return rp, nil
+	}
 	probeRefused := func() (refused bool, well bool) {
-		rp, err := s.e.Call(drv.Root(), nfsx.ProgNFS, 3, nfsx.ProcGetattr, nfsx.ArgsFh(root))
+		rp, err := probeCall()
 		if err != nil {
 			return drv.IsMalformed(err), false
 		}
@@ -352,7 +389,7 @@ func runC16(tb stat.TB, c c16Case) {
 					break
 				}
 				if !seen && drainActive() {
-					viol("no-retry-later-during-drain", "update P%d is waiting for %d in-flight request(s) but probes are still being served", k, holders)
+					viol("no-retry-later-during-drain", "update P%d is waiting for %d in-flight request(s) but probes are still being served (or, over a connection, left unanswered: %d)", k, holders, probeUnanswered)
 				}
 				if seen {
 					logf("drain observed for P%d", k)
@@ -565,6 +602,9 @@ func runC16(tb stat.TB, c c16Case) {
 	var ls []string
 	if c.ShortTimeout {
 		ls = append(ls, "requests_time_out_while_parked")
+	}
+	if c.ProbeConn {
+		ls = append(ls, "probes_over_connection")
 	}
 	stat.Case(c, nt, ls...)
 }
